@@ -65,12 +65,59 @@ def asc(t):
 
 '''.format(c=c)
 
+QHEAD = '''// ---- C02: the InfluxQL cursors (iterator.gen.go) overlay cache on TSM values one point per call ----
+// next<T> returns the head that comes first in the direction of travel and leaves BOTH heads strictly beyond the
+// returned timestamp (on a tie both sides advance and the cache value is the one returned). Sortedness is carried
+// from call to call (ensures still_sorted = the next call's requires).
+'''
+
+EOFV = "(0 - 9223372036854775807 - 1)"
+SORTED_C = "all(i, 0, len(c.cache.values), all(j, i+1, len(c.cache.values), value_ts(c.cache.values[i]) < value_ts(c.cache.values[j])))"
+SORTED_T = "all(i, 0, len(c.tsm.values), all(j, i+1, len(c.tsm.values), c.tsm.values[i].unixnano < c.tsm.values[j].unixnano))"
+NOEOF_C = "all(i, 0, len(c.cache.values), value_ts(c.cache.values[i]) > %s)" % EOFV
+NOEOF_T = "all(i, 0, len(c.tsm.values), c.tsm.values[i].unixnano > %s)" % EOFV
+TSM_HEAD = "0 <= c.tsm.pos && c.tsm.pos < len(c.tsm.values)"
+
+def q(t, up):
+    T = t[0].upper() + t[1:]
+    c = "%s%sCursor" % (t, "Ascending" if up else "Descending")
+    cache_head = "c.cache.pos < len(c.cache.values)" if up else "0 <= c.cache.pos && c.cache.pos < len(c.cache.values)"
+    beyond, first, word, word2 = (">", "<=", "newer", "oldest") if up else ("<", ">=", "older", "newest")
+    pos_req = "0 <= c.cache.pos" if up else "c.cache.pos < len(c.cache.values)"
+    return '''//@ func (*{c}).nextTSM
+//@   assumed
+//@   modifies *except c.cache c.cache.values[:]
+//@   ensures block_is_sorted: {st}
+//@   ensures no_eof_timestamps: {nt}
+//@   ensures moved_on: old({th}) && {th} ==> c.tsm.values[c.tsm.pos].unixnano {beyond} old(c.tsm.values[c.tsm.pos].unixnano)
+
+//@ func (*{c}).next{T}
+//@   props C02
+//@   nosafety
+//@   requires cache_sorted: {sc}
+//@   requires block_sorted: {st}
+//@   requires no_eof_timestamps: {nc} && {nt}
+//@   requires positions: {pos_req}
+//@   ensures exhausted_only_when_both_are: (result0 == {eof}) == old(!({ch}) && !({th}))
+//@   ensures {word2}_head_first: result0 != {eof} ==> (old({ch}) ==> result0 {first} old(value_ts(c.cache.values[c.cache.pos]))) && (old({th}) ==> result0 {first} old(c.tsm.values[c.tsm.pos].unixnano))
+//@   ensures is_one_of_the_heads: result0 != {eof} ==> (old({ch}) && result0 == old(value_ts(c.cache.values[c.cache.pos]))) || (old({th}) && result0 == old(c.tsm.values[c.tsm.pos].unixnano))
+//@   ensures heads_are_{word}_than_the_point: result0 != {eof} ==> (({ch}) ==> value_ts(c.cache.values[c.cache.pos]) {beyond} result0) && (({th}) ==> c.tsm.values[c.tsm.pos].unixnano {beyond} result0)
+//@   ensures still_sorted: {sc} && {st} && {nc} && {nt} && {pos_req}
+
+'''.format(c=c, T=T, st=SORTED_T, sc=SORTED_C, nt=NOEOF_T, nc=NOEOF_C, th=TSM_HEAD, ch=cache_head, beyond=beyond,
+           first=first, word=word, word2=word2, eof=EOFV, pos_req=pos_req)
+
 def main():
     src = open(SRC).read()
     types = sorted(set(re.findall(r"^type (\w+?)ArrayAscendingCursor struct", src, re.M)))
     block = BEGIN + "\n" + HEAD + "\n"
     for t in types:
         block += asc(t) + desc(t)
+    qsrc = open("/repo/tsdb/engine/tsm1/iterator.gen.go").read()
+    qtypes = sorted(set(re.findall(r"^type (\w+?)AscendingCursor struct", qsrc, re.M)))
+    block += QHEAD + "\n"
+    for t in qtypes:
+        block += q(t, True) + q(t, False)
     block += END + "\n"
     cur = open(OUT).read()
     if BEGIN in cur:
